@@ -967,3 +967,58 @@ proof fn lemma_done(ops: Seq<OpCode>, env: Env, fr: Seq<Frame>, stack: Seq<Opera
                 lemma_done(ops, env, fr, stack@, op, r1);
             }
         }
+
+// =========================================================================================
+// A4: case iteration.  SwitchActions::next returns the first case at or after case_index whose
+// condition is true; `break` ends the iteration, `fallthrough` continues with the next case.
+// =========================================================================================
+//@ raw
+// R7: the action type is opaque here (only references to it are passed around)
+#[verifier::external_body]
+#[verifier::reject_recursive_types(T)]
+pub struct Action<'a, T> { p: core::marker::PhantomData<&'a T> }
+
+//@ item keyberon/src/action/switch.rs struct SwitchActions
+//@@ no-derives
+//@@ attr #[verifier::reject_recursive_types(T)]
+//@@ resub R7 1 /<'a, T, A1, A2, H1, H2, L>\s*where.*?\{/ => `<'a, T> {`
+//@@ resub R7 1 /active_keys: A1,\s*active_positions: A2,\s*historical_keys: H1,\s*historical_positions: H2,\s*layers: L,/ => `env: Ghost<Env>,`
+
+//@ raw
+spec fn case_ok<T>(c: (&[OpCode], &Action<T>, BreakOrFallthrough)) -> bool {
+    c.0@.len() < 0x1000 && wf_list(c.0@, 0, c.0@.len() as int, 8)
+}
+spec fn fires<T>(c: (&[OpCode], &Action<T>, BreakOrFallthrough), env: Env) -> bool { sem_top(c.0@, env) }
+
+//@ item keyberon/src/action/switch.rs fn next in `Iterator for SwitchActions`
+//@@ wrap impl<'a, T> SwitchActions<'a, T>
+//@@ ret r
+//@@ sig R7sig `Option<Self::Item>` => `Option<&'a Action<'a, T>>`
+//@@ resub R5 1 /evaluate_boolean\(\s*case\.0,\s*self\.active_keys\.clone\(\),\s*self\.active_positions\.clone\(\),\s*self\.historical_keys\.clone\(\),\s*self\.historical_positions\.clone\(\),\s*self\.layers\.clone\(\),\s*self\.default_layer,\s*\)/ => `evaluate_boolean(case.0, Ghost(self.env@), self.default_layer)`
+//@@ spec
+    requires
+        forall|i: int| 0 <= i < old(self).cases@.len() ==> case_ok(#[trigger] old(self).cases@[i]),
+        old(self).env@.default_layer == old(self).default_layer,
+        old(self).case_index <= old(self).cases@.len(),
+    ensures
+        final(self).cases == old(self).cases, final(self).env == old(self).env, final(self).default_layer == old(self).default_layer,
+        final(self).case_index <= final(self).cases@.len(),
+        // nothing fires from here on: the iteration is over
+        r.is_none() ==> final(self).case_index == old(self).cases@.len()
+            && forall|i: int| old(self).case_index <= i < old(self).cases@.len() ==> !fires(#[trigger] old(self).cases@[i], old(self).env@),
+        // otherwise: the first firing case, top to bottom; break stops, fallthrough continues
+        r.is_some() ==> exists|k: int| {
+            &&& old(self).case_index <= k < old(self).cases@.len()
+            &&& fires(#[trigger] old(self).cases@[k], old(self).env@)
+            &&& forall|i: int| old(self).case_index <= i < k ==> !fires(#[trigger] old(self).cases@[i], old(self).env@)
+            &&& r.unwrap() == old(self).cases@[k].1
+            &&& final(self).case_index == (if old(self).cases@[k].2 == Break { old(self).cases@.len() as int } else { k + 1 })
+        },
+//@@ loop 1
+            invariant
+                self.cases == old(self).cases, self.env == old(self).env, self.default_layer == old(self).default_layer,
+                old(self).case_index <= self.case_index <= self.cases@.len(),
+                forall|i: int| 0 <= i < self.cases@.len() ==> case_ok(#[trigger] self.cases@[i]),
+                self.env@.default_layer == self.default_layer,
+                forall|i: int| old(self).case_index <= i < self.case_index ==> !fires(#[trigger] self.cases@[i], self.env@),
+            decreases self.cases@.len() - self.case_index,
